@@ -132,10 +132,42 @@ Print Assumptions C15_debug_dealloc.
        served block has exactly n*sizeof T bytes, ends at the guard page, is aligned for T; requests that cannot be represented are
        refused; every deallocate of a live block succeeds. *)
 Theorem C15_debug_history : forall page sT aT, 1 <= page -> 2 * page <= c15_size_max -> 1 <= sT -> (aT | page) -> (aT | sT) ->
-  forall ops, ~ In DObsPrecond (c15_dbg_run true true page sT (c15_dbg_state0 page) ops) ->
+  forall ops, forallb (fun op => match op with OpAlloc _ | OpFree _ => true | _ => false end) ops = true ->
+    ~ In DObsPrecond (c15_dbg_run true true page sT (c15_dbg_state0 page) ops) ->
     c15_spec_dbg_trace page sT aT 0 ops (c15_dbg_run true true page sT (c15_dbg_state0 page) ops) = true.
 Proof. exact c15_debug_history. Qed.
 Print Assumptions C15_debug_history.
+
+(* --- misuse of the debugging allocator is detected (the run is stopped with the matching assertion), never silently accepted:
+       wrong count, wrong element type, a pointer into no mapping; destructor: all mappings returned, abort iff blocks are in use;
+       DEBUG_ALLOCATOR_KEEP: the second release of a block is reported *)
+Theorem C15_debug_detects : forall page l1 it l2 n ty, 1 <= page ->
+  Forall (fun it => (page | d_page_ptr it) /\ d_ptr it = d_page_ptr it + page - d_capacity it mod page) (l1 ++ it :: l2) ->
+  NoDup (map d_page_ptr (l1 ++ it :: l2)) ->
+  (n <> 0 /\ n <> d_size it -> c15_dbg_deallocate page ty (d_ptr it) n (l1 ++ it :: l2) = inl DbgSize) /\
+  ((n = 0 \/ n = d_size it) -> ty <> d_type it -> c15_dbg_deallocate page ty (d_ptr it) n (l1 ++ it :: l2) = inl DbgType).
+Proof. exact c15_debug_detects. Qed.
+Print Assumptions C15_debug_detects.
+
+Theorem C15_debug_foreign : forall page ty ptr n l,
+  ~ In (c15_dbg_page_of_gen true page ptr) (map d_page_ptr l) -> c15_dbg_deallocate page ty ptr n l = inl DbgNotFound.
+Proof. exact c15_debug_foreign. Qed.
+Print Assumptions C15_debug_foreign.
+
+Theorem C15_debug_keep_double_free : forall page l1 it l2 n, 1 <= page ->
+  ((page | d_page_ptr it) /\ d_ptr it = d_page_ptr it + page - d_capacity it mod page) ->
+  ~ In (d_page_ptr it) (map (fun e => d_page_ptr (fst e)) l1) -> (n = 0 \/ n = d_size it) ->
+  exists l', c15_dbgk_deallocate page (d_type it) (d_ptr it) n (l1 ++ (it, true) :: l2) = inr l' /\
+             c15_dbgk_deallocate page (d_type it) (d_ptr it) n l' = inl DbgNotFree.
+Proof. exact c15_dbgk_double_free. Qed.
+Print Assumptions C15_debug_keep_double_free.
+
+(* --- copy / converting construction / rebind of a PoolAllocator never shares the pool: the copy starts empty and its first block
+       is slot 0 of a chunk of its own (in C15_pool_inv the original's state is untouched by OpCopy) *)
+Theorem C15_pa_copy : forall g sT aT, c15_geom_good sT aT g ->
+  exists p', c15_pool_allocate g (c15_pa_copy c15_pool_empty) = C15Ok ((0%nat, 0), p') /\ forall p, c15_pa_copy p = c15_pool_empty.
+Proof. exact c15_copy_first. Qed.
+Print Assumptions C15_pa_copy.
 
 
 (* the tree as found: refuted — findings F-C15-1 and F-C15-2 (witnesses replayed on the implementation by corpus/C15) *)
@@ -165,10 +197,12 @@ Proof. vm_compute; reflexivity. Qed.
 Example C15_ex_geometry_single : c15_pa_geometry 64 64 2 = Some (C15Geom 64 128 64 64 128 2) /\ c15_geometry 100 4 7 = Some (C15Geom 100 100 8 104 104 1).
 Proof. vm_compute; split; reflexivity. Qed.
 Example C15_ex_history :
-  let ops := [OpAlloc 1; OpAlloc 1; OpAlloc 1; OpAlloc 1; OpFree 1; OpAlloc 3; OpFree 0; OpAlloc 1; OpAlloc 1; OpAlloc 1] in
+  let ops := [OpAlloc 1; OpAlloc 1; OpAlloc 1; OpAlloc 1; OpFree 1; OpAlloc 3; OpFreeN 0 0; OpCopy 0; OpFreeInvalid true; OpFreeInvalid false;
+              OpFreeN 0 1; OpAlloc 1; OpAlloc 1; OpAlloc 1] in
   c15_ops_ok 0 ops = true /\
   fst (c15_run (C15Geom 12 41 8 16 48 3) c15_client_empty ops) =
-    [ObsBlock 0 0; ObsBlock 0 16; ObsBlock 0 32; ObsBlock 1 0; ObsFreed; ObsBadAlloc; ObsFreed; ObsBlock 0 0; ObsBlock 0 16; ObsBlock 1 16].
+    [ObsBlock 0 0; ObsBlock 0 16; ObsBlock 0 32; ObsBlock 1 0; ObsFreed; ObsBadAlloc; ObsNoop; ObsCopyOk; ObsBadAlloc; ObsBadAlloc;
+     ObsFreed; ObsBlock 0 0; ObsBlock 0 16; ObsBlock 1 16].
 Proof. vm_compute; split; reflexivity. Qed.
 Example C15_ex_debug :
   exists ai gp, c15_dbg_allocate 4096 0 8 1000 (fun _ => Some 65536) = C15Ok (ai, gp) /\ d_ptr ai = 65536 + 4096 - 3904 /\ gp = 65536 + 2 * 4096 /\
@@ -184,4 +218,10 @@ Example C15_ex_debug_history :
     [DObsOk 3296 800 true; DObsOk 0 4096 true; DObsOk 0 0 true; DObsFreed; DObsBadAlloc; DObsFreed; DObsFreed].
 Proof. vm_compute; reflexivity. Qed.
 Example C15_ex_isAligned : c15_isAligned 4128 32 = true /\ c15_isAligned 4112 32 = false /\ c15_isAligned (2 ^ 63) (2 ^ 63) = false.
+Proof. vm_compute; repeat split; reflexivity. Qed.
+Example C15_ex_debug_misuse :
+  c15_dbg_run true true 4096 8 (c15_dbg_state0 4096) [OpAlloc 10; OpFreeN 0 7] = [DObsOk 4016 80 true; DObsAbort DbgSize] /\
+  c15_dbg_run true true 4096 8 (c15_dbg_state0 4096) [OpAlloc 10; OpFreeN 0 0; OpFreeInvalid true] = [DObsOk 4016 80 true; DObsFreed; DObsAbort DbgNotFound] /\
+  c15_dbg_run true true 4096 8 (c15_dbg_state0 4096) [OpAlloc 10; OpFreeBad 0 1] = [DObsOk 4016 80 true; DObsAbort DbgPtr] /\
+  c15_dbgk_run 4096 8 (c15_dbgk_state0 4096) [OpAlloc 10; OpFree 0; OpFreeBad 0 2] = [DObsOk 4016 80 true; DObsFreed; DObsAbort DbgNotFree].
 Proof. vm_compute; repeat split; reflexivity. Qed.
